@@ -29,7 +29,8 @@ RULE = ("schedules of 1-8 queued requests (GET/POST with bodies, unique path and
         "redirectable on/off; methods GET/HEAD/POST/PUT mixed per request (HEAD replies carry a non-zero Content-Length and no "
         "body) and clients constructed with method HEAD/POST; requests with 0-3 query arguments (as qargs or written into the path) whose "
         "redirect Locations re-assign none / some / all of the keys, also over multi-hop chains; requests queued through Client.request WITHOUT qargs (default = copy of the requester's) with and without "
-        "a query in their path, several queued before the earlier one is built.  A case is non-trivial when >= 3 requests were queued and some reply was delayed, "
+        "a query in their path, several queued before the earlier one is built; payload kinds per request (data= JSON, fargs= form, body= bytes, none) on "
+        "GET/POST/PUT/PATCH/DELETE with explicit or default headers.  A case is non-trivial when >= 3 requests were queued and some reply was delayed, "
         "fragmented or a redirect")
 MODELLED = ["response parsing (real Respondent) is abstracted to 'a complete reply with status s and Location l was "
             "consumed in this pass'; request building (real Requester) to the path that appears on the wire",
@@ -104,15 +105,18 @@ class FakeSock:
                 return
             head = bytes(self.rx[:i]).decode("latin-1")
             lines = head.split("\r\n")
-            n = 0
+            n, ctype = 0, None
             for ln in lines[1:]:
                 if ln.lower().startswith("content-length:"):
                     n = int(ln.split(":", 1)[1])
+                if ln.lower().startswith("content-type:"):
+                    ctype = ln.split(":", 1)[1].strip()
             if len(self.rx) < i + 4 + n:
                 return
+            body = bytes(self.rx[i + 4:i + 4 + n])
             del self.rx[:i + 4 + n]
             verb, path = lines[0].split(" ")[:2]
-            self.net.wire.append([self.conn_id, self.secure, HOSTS.index(self.ha), path, verb])
+            self.net.wire.append([self.conn_id, self.secure, HOSTS.index(self.ha), path, verb, classify_body(body), ctype_kind(ctype)])
             k = self.net.k
             self.net.k += 1
             r = self.net.replies[k] if k < len(self.net.replies) else {"status": 200}
@@ -181,6 +185,50 @@ def ev_pathq(ev):
     return ev[4] if len(ev) > 4 and isinstance(ev[4], list) else []
 
 
+def ev_pay(ev):
+    """payload kind queued with the request: none | body | data | fargs (older cases: POST/PUT carry body=)"""
+    if len(ev) > 5:
+        return ev[5]
+    return "body" if ev_method(ev) in ("POST", "PUT") else "none"
+
+
+def ev_hdr(ev):
+    """explicit headers= given to Client.request (else its default: a copy of the requester's)"""
+    return bool(ev[6]) if len(ev) > 6 else False
+
+
+def pay_of(ev):
+    k = PAYKINDS.index(ev_pay(ev))
+    return [k, ev[1] if k else 0]
+
+
+def classify_body(body):
+    """bytes the server received -> [kind, id]"""
+    import json as _json, re
+    if not body:
+        return [0, 0]
+    m = re.fullmatch(rb"payload (\d+)", body)
+    if m:
+        return [1, int(m.group(1))]
+    m = re.fullmatch(rb"f=(\d+)", body)
+    if m:
+        return [3, int(m.group(1))]
+    try:
+        d = _json.loads(body)
+        if isinstance(d, dict) and list(d) == ["d"] and isinstance(d["d"], int):
+            return [2, d["d"]]
+    except Exception:
+        pass
+    return [9, 9]
+
+
+def ctype_kind(value):
+    if not value:
+        return None
+    v = value.lower()
+    return "json" if v.startswith("application/json") else ("form" if v.startswith("application/x-www-form-urlencoded") else "other")
+
+
 def q_merge(base, upd):
     d = {k: v for k, v in base}
     for k, v in upd:
@@ -242,7 +290,8 @@ def render_reply(k, r, verb="GET"):
 # --------------------------------------------------------------------------- implementation run
 
 _NET = None
-METHODS = ["GET", "HEAD", "POST", "PUT"]
+METHODS = ["GET", "HEAD", "POST", "PUT", "PATCH", "DELETE"]
+PAYKINDS = ["none", "body", "data", "fargs"]
 
 
 def ev_method(ev):
@@ -292,6 +341,17 @@ def _fake_classes():
     return FakeClient, FakeTls
 
 
+def _pay_of_request(request):
+    """the payload the entry's request dict shows: data, else fargs, else body"""
+    d, f, b = request.get("data"), request.get("fargs"), request.get("body")
+    if d is not None:
+        return [2, d.get("d", 9) if isinstance(d, dict) else 9]
+    if f is not None:
+        v = f.get("f", "9") if hasattr(f, "get") else "9"
+        return [3, int(v) if str(v).isdigit() else 9]
+    return classify_body(bytes(b or b""))
+
+
 def _target_of(request):
     kind, num, _ = split_target(request.get("path") or "/t9999")
     q = [[KEYS.index(k) if k in KEYS else 99, int(v) if str(v).isdigit() else 99] for k, v in (request.get("qargs") or {}).items()]
@@ -315,7 +375,7 @@ def run_impl(case):
         client = clienting.Client(connector=connector, redirectable=case.get("redirectable", True),
                                   method=case.get("cmethod", "GET"))
         client.reopen()
-        trace, escaped, bodies, snaps = [], None, [], {}
+        trace, escaped, bodies, snaps, ctsnaps = [], None, [], {}, {}
         events = list(case["events"])
         extra = 0
         while events or extra < case.get("drain", 12):
@@ -328,10 +388,18 @@ def run_impl(case):
                 kw = {"path": f"/t{t}" + ("?" + q_text(pq) if pq else "")}
                 if q is not None:
                     kw["qargs"] = {KEYS[k]: str(v) for k, v in q}
+                pk = ev_pay(ev)
+                if pk == "body":
+                    kw["body"] = f"payload {t}".encode()
+                elif pk == "data":
+                    kw["data"] = {"d": t}
+                elif pk == "fargs":
+                    kw["fargs"] = {"f": str(t)}
+                if ev_hdr(ev):
+                    kw["headers"] = {"X-Tag": str(t)}
+                ctsnaps[t] = ctype_kind(client.requester.headers.get("content-type"))
                 # Client.request without qargs takes (a copy of) the requester's current ones: note them
                 snaps[t] = _target_of({"path": "/t0", "qargs": client.requester.qargs})[2]
-                if m in ("POST", "PUT"):
-                    kw["body"] = f"payload {t}".encode()
                 client.request(method=m, tag=t, **kw)
                 continue
             net.tick()
@@ -351,15 +419,15 @@ def run_impl(case):
             hist = [[h["status"], h["request"].get("tag")] for h in r.get("redirects", [])]
             entries.append({"status": r["status"], "tag": r["request"].get("tag"), "errored": bool(r["errored"]),
                             "history": hist, "path": r["request"].get("path"), "method": r["request"].get("method"),
-                            "target": _target_of(r["request"]),
+                            "target": _target_of(r["request"]), "pay": _pay_of_request(r["request"]),
                             "targets": [_target_of(h["request"]) for h in r.get("redirects", [])],
                             "body": bodies[i] if i < len(bodies) else None,
                             "body_end": bytes(r["body"]).hex()})   # read only after the whole history
         wire = []
-        for cid, sec, hi, path, verb in net.wire:
+        for cid, sec, hi, path, verb, pay, ctk in net.wire:
             kind, num, q = split_target(path)
-            wire.append([cid, bool(sec), hi, kind, num, verb, q])
-        return {"snaps": {str(k): v for k, v in snaps.items()},
+            wire.append([cid, bool(sec), hi, kind, num, verb, q, pay, ctk])
+        return {"snaps": {str(k): v for k, v in snaps.items()}, "ctsnaps": {str(k): v for k, v in ctsnaps.items()},
                 "trace": trace, "entries": entries, "wire": wire, "escaped": escaped, "unsent": len(client.connector.txbs),
                 "final": [bool(client.waited), len(client.requests), len(client.redirects)],
                 "conn_https": isinstance(client.connector, tcp.ClientTls), "replies_used": net.k}
@@ -464,6 +532,26 @@ def oracle(case, obs):
             ((replies[e["target"][1]].get("loc") or {}).get("q") or [] if e["target"][1] < len(replies) else [])
         if e["target"][2] != want:
             return f"entry's request carries query {e['target'][2]} but was sent for target query {want}"
+    # payloads: the body bytes and Content-Type the server received for request k, and the entry's request dict,
+    # are exactly what was queued for request k (nothing of an earlier request's data=/fargs=/body=)
+    evof = {ev[1]: ev for ev in case["events"] if ev[0] == "enq"}
+    for w in obs["wire"]:
+        if w[3] == "req" and w[4] in evof:
+            ev = evof[w[4]]
+            want = [0, 0] if ev_method(ev) == "GET" else pay_of(ev)
+            if w[7] != want:
+                return (f"request {w[4]} ({ev_method(ev)}, queued with {ev_pay(ev)}) reached the server with payload {w[7]} "
+                        f"(kind,id), expected {want}")
+            if ev_method(ev) != "GET":
+                wct = {"data": "json", "fargs": "form"}.get(ev_pay(ev),
+                                                            None if ev_hdr(ev) else obs["ctsnaps"].get(str(w[4])))
+                if w[8] != wct:
+                    return f"request {w[4]} ({ev_pay(ev)}) reached the server with Content-Type kind {w[8]}, expected {wct}"
+        elif w[3] == "redir" and w[7] != [0, 0]:
+            return f"redirect follow-up for reply {w[4]} carried a payload {w[7]}"
+    for e, o in zip(obs["entries"], origins):
+        if not e["history"] and o in evof and e["pay"] != pay_of(evof[o]):
+            return f"entry for request {o}: request dict shows payload {e['pay']}, queued with {pay_of(evof[o])}"
     # nothing left unsent / unanswered once the schedule has drained
     closed = any(closes_after(replies[j] if j < len(replies) else {}, obs["wire"][j][5])
                  for j in range(min(obs["replies_used"], len(obs["wire"]))))
@@ -569,6 +657,12 @@ def directed():
         # Client.request WITHOUT qargs, several queued before anything is built, earlier paths carry a query
         {"events": [["enq", 1, "GET", "none", [[0, 1]]], ["enq", 2, "GET", "none"], ["enq", 3, "GET", "none", [[1, 2]]], ["enq", 4, "GET", "none"]],
          "replies": [{}, {}, {}, {}]},
+        # payload kinds over one client's history: data= / fargs= followed by body-only and payload-less non-GET requests
+        {"events": [["enq", 1, "POST", [], [], "data", True], ["enq", 2, "POST", [], [], "body", True], ["enq", 3, "DELETE", [], [], "none", True],
+                    ["enq", 4, "GET", [], [], "none", True]], "replies": [{}, {}, {}, {}]},
+        {"events": [["enq", 1, "PUT", [], [], "fargs", False], ["pass"], ["pass"], ["enq", 2, "PATCH", [], [], "body", False],
+                    ["enq", 3, "GET", [], [], "data", False], ["enq", 4, "POST", [], [], "none", False], ["enq", 5, "POST", [], [], "data", True]],
+         "replies": [{}, {"delay": 1}, {}, {}, {}]},
         # ... and queued after an earlier one was built: the default is the requester's qargs of that moment
         {"events": [["enq", 1, "GET", [[2, 5]], [[0, 1]]], ["pass"], ["enq", 2, "GET", "none"], ["enq", 3, "POST", "none", [[0, 7]]], ["pass"], ["pass"],
                     ["enq", 4, "GET", [], [[1, 1]]], ["enq", 5, "HEAD", "none"]],
@@ -581,7 +675,10 @@ def gen_case(rng):
     tags = rng.sample(range(1, 60), n)
     events = []
     for t in tags:
-        ev = ["enq", t, rng.choices(METHODS, [5, 3, 2, 1])[0]]
+        ev = ["enq", t, rng.choices(METHODS, [5, 3, 3, 2, 1, 1])[0]]
+        payload = None
+        if ev[2] not in ("HEAD",) and rng.random() < 0.6:
+            payload = [rng.choice(PAYKINDS if ev[2] != "GET" else ["none", "data", "fargs"]), rng.random() < 0.6]
         rq = lambda: [[k, rng.randrange(10)] for k in rng.sample(range(3), rng.randint(1, 3))]
         x = rng.random()
         if x < 0.3:
@@ -592,8 +689,12 @@ def gen_case(rng):
             ev.append("none")                   # no qargs argument: Client.request's default
             if rng.random() < 0.6:
                 ev.append(rq())                 # ... with a query in the path
-        elif x < 0.7:
+        elif x < 0.7 and payload is None:
             ev += [rq(), "inpath"]
+        if payload is not None:
+            while len(ev) < 5:
+                ev.append([])
+            ev += payload
         events.append(ev)
         for _ in range(rng.choice([0, 0, 0, 1, 2, 4])):
             events.append(["pass"])
@@ -681,6 +782,10 @@ def _q(q):
     return coq_list(["(%s, %s)" % (coq_N(_n(k)), coq_N(_n(v))) for k, v in q], "N * N")
 
 
+def _pay(p):
+    return "(%s, %s)" % (coq_N(_n(p[0])), coq_N(_n(p[1])))
+
+
 def _tg(t):
     return "(%s, %s, %s)" % (coq_bool(bool(t[0])), coq_N(_n(t[1])), _q(t[2]))
 
@@ -727,23 +832,24 @@ def to_coq(case, obs):
     tr = coq_list(["(%s, %s, %s, %s)" % (coq_bool(t[1]), coq_N(t[2]), coq_N(t[3]), coq_N(t[4])) for t in trace],
                   "bool * N * N * N")
     ents = coq_list(["{| HttpClient.e_status := %s; HttpClient.e_tag := %s; HttpClient.e_errored := %s; HttpClient.e_history := %s; "
-                     "HttpClient.e_target := %s; HttpClient.e_targets := %s |}" % (
+                     "HttpClient.e_target := %s; HttpClient.e_targets := %s; HttpClient.e_pay := %s |}" % (
         coq_N(_n(e["status"])), coq_option(_t(e["tag"]), coq_N, "N"), coq_bool(e["errored"]),
         coq_list(["(%s, %s)" % (coq_N(_n(h[0])), coq_option(_t(h[1]), coq_N, "N")) for h in e["history"]], "N * option N"),
-        _tg(e["target"]), coq_list([_tg(x) for x in e["targets"]], "HttpClient.target"))
+        _tg(e["target"]), coq_list([_tg(x) for x in e["targets"]], "HttpClient.target"), _pay(e["pay"]))
         for e in obs["entries"]], "HttpClient.entry")
-    wire = coq_list(["{| HttpClient.w_conn := %s; HttpClient.w_https := %s; HttpClient.w_host := %s; HttpClient.w_item := %s; HttpClient.w_q := %s |}" % (
+    wire = coq_list(["{| HttpClient.w_conn := %s; HttpClient.w_https := %s; HttpClient.w_host := %s; HttpClient.w_item := %s; HttpClient.w_q := %s; HttpClient.w_pay := %s |}" % (
         coq_N(w[0]), coq_bool(w[1]), coq_N(w[2]),
-        ("(HttpClient.WReq %s)" if w[3] == "req" else "(HttpClient.WRedir %s)") % coq_N(w[4]), _q(w[6])) for w in obs["wire"]],
+        ("(HttpClient.WReq %s)" if w[3] == "req" else "(HttpClient.WRedir %s)") % coq_N(w[4]), _q(w[6]), _pay(w[7])) for w in obs["wire"]],
         "HttpClient.wentry")
     meths = coq_list(["(%s, %s)" % (coq_N(ev[1]), coq_N(METHODS.index(ev_method(ev)))) for ev in case["events"] if ev[0] == "enq"], "N * N")
     qas = coq_list(["(%s, %s)" % (coq_N(ev[1]), coq_option(ev_explicit(ev), _q, "HttpClient.qargs")) for ev in case["events"] if ev[0] == "enq"],
                    "N * option HttpClient.qargs")
+    pays = coq_list(["(%s, %s)" % (coq_N(ev[1]), _pay(pay_of(ev))) for ev in case["events"] if ev[0] == "enq"], "N * HttpClient.payload")
     pqs = coq_list(["(%s, %s)" % (coq_N(ev[1]), _q(ev_pathq(ev))) for ev in case["events"] if ev[0] == "enq"], "N * HttpClient.qargs")
     return ("{| HttpClient.c_https := %s; HttpClient.c_redirectable := %s; HttpClient.c_cmethod := %s; HttpClient.c_methods := %s; "
-            "HttpClient.c_qargs := %s; HttpClient.c_pathq := %s; "
+            "HttpClient.c_qargs := %s; HttpClient.c_pathq := %s; HttpClient.c_pays := %s; "
             "HttpClient.c_events := %s; HttpClient.c_trace := %s; "
             "HttpClient.c_entries := %s; HttpClient.c_wire := %s |}" % (
                 coq_bool(bool(case.get("https"))), coq_bool(case.get("redirectable", True)),
-                coq_N(METHODS.index(case.get("cmethod", "GET"))), meths, qas, pqs,
+                coq_N(METHODS.index(case.get("cmethod", "GET"))), meths, qas, pqs, pays,
                 coq_list(evs, "HttpClient.event"), tr, ents, wire))
